@@ -170,7 +170,7 @@ def gen_fit_case(rng, i, allow_plateau=False):
     r = rng.random()
     if allow_plateau and r < 0.12:
         kw["optimal_fit_edelta"] = True
-        kw["optimal_fit_num_samples"] = rng.choice([5, 8, 12])
+        kw["optimal_fit_num_samples"] = rng.choice([7, 8, 12])   # (n <= 6: scipy filtfilt raises ValueError)
         kw["range_type"] = "absolute"
         kw["range_x"] = rng.choice([[0, 0], [-1e-6, 1e-6], [-np.inf, 5e-7]])
     elif r < 0.55:
